@@ -23,7 +23,9 @@ VALID = [1, 2, 4, 8, 16, 32, 64]
 INVALID = [0, 3, 24, 128]
 USIZE_MAX = (1 << 64) - 1
 ISIZE_MAX = (1 << 63) - 1
-HUGE = [USIZE_MAX, USIZE_MAX - 1, ISIZE_MAX]
+# bookkeeping-only lengths (never dereferenced): the ends of the range and, for every power of two 2^p with
+# 2^p * size possibly wrapping, 2^p + k: a byte-size computation `len * size_of::<T>()` wraps exactly there
+HUGE = [USIZE_MAX, USIZE_MAX - 1, ISIZE_MAX] + [(1 << p) + k for p in range(52, 64) for k in (0, 1, 5, 100)]
 BIG = [1 << 16, (1 << 20) + 1]
 
 PANIC_TEXT = {  # model panic code -> substring of the Rust panic message
@@ -93,6 +95,11 @@ def run_abmeta(config, size, length):
     for ln in out.splitlines():
         if ln.startswith("case "):
             return ln.split(" ", 3)[3]
+    if "memory allocation of" in out and "failed" in out:
+        # the global allocator refused the request and std aborted the process (handle_alloc_error): the allocator
+        # oracle of Props/C16.v ("requests it cannot serve abort") - not an outcome of AlignedBuffer itself
+        m = re.search(r"memory allocation of (\d+) bytes failed", out)
+        return "oom bytes=%s" % (m.group(1) if m else "?")
     return "crash rc=%d %s" % (rc, out[-200:].replace("\n", " "))
 
 
@@ -251,6 +258,17 @@ def run(ctx):
         m = meta.get((build, size, length))
         valid = size in VALID
         where = "%s build, %d-byte elements, len %d" % (build, size, length)
+        if obs.startswith("oom"):
+            # acceptable only for a genuinely enormous request whose size is the one the model predicts
+            want = (length // npc(size) + ab["plus"]) * ab["div"] if valid and npc(size) else None
+            got = kv(obs).get("bytes")
+            bump("oom_abort")
+            if want is None or got is None or int(got) != want or want < (1 << 40):
+                ctx.violation("oom-unexpected:" + build,
+                              "AlignedBuffer::zeroed aborted in the allocator on a request of %s bytes (%s); the chunk arithmetic "
+                              "of the source asks for %s bytes" % (got, where, want),
+                              replay_of(build, size, length, mode, obs, "a request of %s bytes" % want))
+            return
         if obs.startswith("crash"):
             ctx.violation("crash:" + build, "AlignedBuffer harness process died while running (%s): %s" % (where, obs),
                           replay_of(build, size, length, mode, obs, "no crash"))
